@@ -1447,6 +1447,8 @@ impl PayloadContent {
     pub fn arg_count(&self) -> u8 {
         match &self {
             PayloadContent::Verbose(args) => std::cmp::min(args.len() as u8, u8::MAX),
+            // every network-trace slice is transmitted as one raw-data argument
+            PayloadContent::NetworkTrace(slices) => std::cmp::min(slices.len() as u8, u8::MAX),
             _ => 0,
         }
     }
@@ -1595,7 +1597,9 @@ impl Message {
             },
             extended_header: match conf.extended_header_info {
                 Some(ext_info) => Some(ExtendedHeader {
-                    verbose: conf.payload.is_verbose(),
+                    // network-trace slices are serialised as verbose raw-data arguments
+                    verbose: conf.payload.is_verbose()
+                        || matches!(conf.payload, PayloadContent::NetworkTrace(_)),
                     argument_count: conf.payload.arg_count(),
                     message_type: ext_info.message_type,
                     application_id: ext_info.app_id,
